@@ -219,7 +219,7 @@ func (self *FieldMask) marshalRec(buf *[]byte) error {
 		}
 		sort.Stable(fds)
 		for _, v := range fds {
-			cont, err := writer(json.RawMessage(strconv.Quote(v.id)), v.fm)
+			cont, err := writer(jsonString(v.id), v.fm)
 			if err != nil {
 				return err
 			}
@@ -234,6 +234,16 @@ func (self *FieldMask) marshalRec(buf *[]byte) error {
 
 	write(buf, "]}")
 	return nil
+}
+
+// jsonString writes a map key as a JSON string. strconv.Quote is not enough:
+// it emits Go escapes (\x01, \a, \U0001f600...) which JSON decoders reject.
+func jsonString(s string) json.RawMessage {
+	buf := bytes.NewBuffer(make([]byte, 0, len(s)+2))
+	enc := json.NewEncoder(buf)
+	enc.SetEscapeHTML(false)
+	_ = enc.Encode(s) // encoding a string never fails
+	return json.RawMessage(bytes.TrimRight(buf.Bytes(), "\n"))
 }
 
 // fieldMaskTransfer is the data struct being used to transfer and construct a fieldmask
